@@ -9,7 +9,7 @@ from vlib.coqterm import C, show
 ASSUMPTIONS = [
     "bcrypt verification and the token digest are modelled as equality tests on abstract values",
     "'never written to the data files' is decided by a byte search of the real files after every history (a test, not a theorem)",
-    "JWT / HTTP login is not exercised",
+    "JWT / HTTP login is not exercised (password changes do go through the HTTP API as well)",
 ]
 USERS = ["alice", "bob", "carol"]
 PWS = ["pw-alpha-1", "pw-beta-22", "pw-gamma-333", "pw-delta-4444"]
@@ -53,7 +53,10 @@ def gen(rng, tid):
             add({"op": "login", "c": c, "user": name, "password": pw}, C("XLogin", CLIENTS.index(c) + 1, tok(name), pwt(pw)))
         elif k == "change":
             cur, new = rng.choice(PWS), rng.choice(PWS)
-            add({"op": "change_password", "uid": u, "current": cur, "new": new}, C("XChangePassword", tok(u), pwt(cur), pwt(new)))
+            op = {"op": "change_password", "uid": u, "current": cur, "new": new}
+            if rng.random() < 0.4:
+                op["c"] = "httproot"             # the HTTP API has handlers of its own
+            add(op, C("XChangePassword", tok(u), pwt(cur), pwt(new)))
         elif k == "active":
             a = rng.random() < 0.5
             add({"op": "update_user", "uid": u, "inactive": not a}, C("XSetActive", tok(u), a))
@@ -84,6 +87,17 @@ def gen(rng, tid):
             add({"op": "restart"}, C("XRestart", clock[0] + 1000))
         else:
             add({"op": "advance", "us": rng.choice([2_000, 10_000, 100_000])}, None)
+    # a token with a finite lifetime, a restart inside it, then a login after the original expiry instant: the lifetime counts from
+    # the token's creation, not from the restart
+    c = rng.choice(CLIENTS)
+    add({"op": "login", "c": c, "user": "iggy", "password": "iggy"}, C("XLogin", CLIENTS.index(c) + 1, tok("iggy"), pwt("iggy")))
+    add({"op": "create_pat", "c": c, "name": "tok9", "store_as": "k%d" % (len(pats) + 1), "expiry_us": 50_000},
+        C("XCreatePat", CLIENTS.index(c) + 1, 209, C("Some", 50_000), clock[0] + 1000, len(pats) + 1))
+    pats.append("tok9")
+    add({"op": "advance", "us": 20_000}, None)
+    add({"op": "restart"}, C("XRestart", clock[0] + 1000))
+    add({"op": "advance", "us": 40_000}, None)
+    add({"op": "login_pat", "c": c, "name": "k%d" % len(pats)}, C("XLoginPat", CLIENTS.index(c) + 1, len(pats), clock[0] + 1000))
     add({"op": "restart"}, C("XRestart", clock[0] + 1000))
     add({"op": "grep", "needles": PWS, "tokens": True}, None)
     return {"id": tid, "cfg": {"req": 1000, "seg_size": 1000000, "cache": False}, "ops": ops, "xs": xs}
